@@ -54,6 +54,7 @@ def main():
     claimed = sorted(registry.PROPS)
     res_path = os.path.join(VERIF, 'seeded', 'RESULTS.json')
     results = json.load(open(res_path)) if os.path.exists(res_path) else {}
+    mine = {}
     with cf.ThreadPoolExecutor(max_workers=jobs) as ex:
         futs = []
         for s in seeds:
@@ -67,10 +68,15 @@ def main():
             futs.append(ex.submit(run_seed, s, props + extra, tier))
         for f in cf.as_completed(futs):
             s, out = f.result()
-            results[s] = out
+            mine[s] = out
+            # merge-on-write: another evaluation may be writing the same file
+            results = json.load(open(res_path)) if os.path.exists(res_path) else {}
+            results.update(mine)
             caught = [p for p, v in out.items() if isinstance(v, dict) and v.get('exit') == 1]
             print('%s: %s' % (s, {p: (v.get('exit') if isinstance(v, dict) else v) for p, v in out.items()}), 'CAUGHT by ' + ','.join(caught) if caught else 'not caught', flush=True)
             json.dump(results, open(res_path, 'w'), indent=1, sort_keys=True)
+    results = json.load(open(res_path)) if os.path.exists(res_path) else {}
+    results.update(mine)
     json.dump(results, open(res_path, 'w'), indent=1, sort_keys=True)
 
 def harmless(args):
